@@ -260,6 +260,10 @@ const ZINC_RECORDS: &[&str] = &[
     "ver:\"3.0\"\nempty\n",
     "[{a:1},{a:2 b:\"x\"},{site}]",
     "[{a:1},3,\"s\"]",
+    "[{}]",
+    "[{},{}]",
+    "[{},{a:N}]",
+    "[[],{},[{}]]",
     "[1,2,3]",
     "[]",
 ];
@@ -674,10 +678,13 @@ pub const FIXTURE: &[(K, &str)] = &[
     (K::Number, "42"),
     (K::Ref, "@r2"),
     (K::List, "[{a:1},{a:2 b:\"x\"}]"),
+    (K::List, "[{},{}]"),
+    (K::Dict, "{}"),
+    (K::List, "[]"),
 ];
-const FIX_OUT: i64 = 21; // an initialised (Null) handle used as `result`
-const FIX_NEW: i64 = 22; // empty slot for returned handles
-const FIX_OUT_HEAP: i64 = 23; // a handle owning heap data, also used as `result`
+const FIX_OUT: i64 = 24; // an initialised (Null) handle used as `result`
+const FIX_NEW: i64 = 25; // empty slot for returned handles
+const FIX_OUT_HEAP: i64 = 26; // a handle owning heap data, also used as `result`
 
 pub fn fixture_ops() -> Vec<Op> {
     let mut ops = Vec::new();
